@@ -239,7 +239,9 @@ func c09Shutdown(r *kit.Run, idx int64, rng *rand.Rand) {
 					return false
 				}
 			}) {
-				if cs, q := kit.Quiesce(c08Watchdog); q {
+				if cs, q := kit.Quiesce(c08Watchdog); isClosed(sd) {
+					// returned late: not a verdict
+				} else if q {
 					violKind, viol = "stop-blocks", fmt.Sprintf("Stop() does not return; at quiescence: %v", cs.Describe())
 				} else {
 					inconclusive = "Stop did not return, not quiescent"
@@ -326,7 +328,9 @@ func c09Shutdown(r *kit.Run, idx int64, rng *rand.Rand) {
 							stuck = append(stuck, name)
 						}
 					}
-					violKind, viol = "call-ignores-cancel", fmt.Sprintf("on a stopped broker %v did not return after their context was cancelled; %v", stuck, cs.Describe())
+					if len(stuck) > 0 {
+						violKind, viol = "call-ignores-cancel", fmt.Sprintf("on a stopped broker %v did not return after their context was cancelled; %v", stuck, cs.Describe())
+					}
 				} else {
 					inconclusive = "API calls after shutdown not returned, not quiescent"
 				}
@@ -467,7 +471,9 @@ func c09Stats(r *kit.Run, idx int64, rng *rand.Rand) {
 			wd := make(chan struct{})
 			go func() { h.b.Wait(context.Background()); close(wd) }()
 			if !kit.WaitUntil(c08Watchdog/3, func() bool { return isDone(wd) }) {
-				if cs, q := kit.Quiesce(c08Watchdog); q {
+				if cs, q := kit.Quiesce(c08Watchdog); isDone(wd) {
+					// returned late: not a verdict
+				} else if q {
 					violKind, viol = "shutdown-hangs", fmt.Sprintf("Wait does not return after Stop following the Stats calls; %v", cs.Describe())
 				} else {
 					inconclusive = "Wait after Stats not returned, not quiescent"
